@@ -2,7 +2,8 @@
 from typing import Coroutine
 
 from .__about__ import __version__  # noqa: F401
-from ._core.loop import Loop as _Loop, ActivityLeak as _ActivityLeak
+from ._core.loop import Loop as _Loop, ActivityLeak as _ActivityLeak,\
+    Interrupt as _Interrupt
 from ._primitives.timing import Time, Eternity, Instant, interval, delay,\
     IntervalExceeded
 from ._primitives.flag import Flag
@@ -43,20 +44,32 @@ def run(*activities: Coroutine, start: float = 0, till: float = None):
     :param till: time at which to terminate the simulation
     """
     if till is not None:
+        failures = []
+
         async def root_activity(activity):
+            try:
+                result = await activity
+            except (GeneratorExit, _Interrupt):
+                raise  # aborted by ``till`` or the failure of another activity
+            except BaseException as failure:
+                failures.append(failure)
+                raise
             # as without ``till``, a root activity must not return anything
-            result = await activity
             if result is not None:
-                raise _ActivityLeak(activity, None, result)
+                failures.append(_ActivityLeak(activity, None, result))
+                raise failures[-1]
 
         async def root(_activities=activities, _till=till):
             try:
                 async with until(time == _till) as scope:
                     for activity in _activities:
                         scope.do(root_activity(activity))
-            except Concurrent as failures:
-                # as without ``till``, report the first failure itself
-                raise failures.children[0]
+            except BaseException:
+                if not failures:
+                    raise
+            # as without ``till``, report the first failure itself
+            if failures:
+                raise failures[0]
         activities = root(_activities=activities, _till=till),
     loop = _Loop(*activities, start=start)
     loop.run()
